@@ -108,9 +108,24 @@ impl LexiconSet<'_> {
     /// Rest will be of default values (0 or empty).
     pub fn get_word_info_subset(&self, id: WordId, subset: InfoSubset) -> SudachiResult<WordInfo> {
         let dict_id = id.dic();
-        let mut word_info: WordInfoData = self.lexicons[dict_id as usize]
-            .get_word_info(id.word(), subset)?
-            .into();
+        let lexicon = &self.lexicons[dict_id as usize];
+        let mut word_info: WordInfoData = if dict_id == 0 {
+            lexicon.get_word_info(id.word(), subset)?.into()
+        } else {
+            // dictionary form of a user dictionary word can be
+            // in the system dictionary or in the same user dictionary
+            let mut word_info = lexicon.get_word_info_unresolved(id.word(), subset)?;
+            let form_id = word_info.dictionary_form_word_id;
+            if subset.contains(InfoSubset::DIC_FORM_WORD_ID) && form_id >= 0 {
+                let form_id = WordId::from_raw(form_id as u32);
+                if form_id.dic() == 0 {
+                    word_info.dictionary_form = self.lexicons[0].get_surface(form_id.word())?;
+                } else if form_id.word() != id.word() {
+                    word_info.dictionary_form = lexicon.get_surface(form_id.word())?;
+                }
+            }
+            word_info
+        };
 
         if subset.contains(InfoSubset::POS_ID) {
             let pos_id = word_info.pos_id as usize;
